@@ -42,7 +42,8 @@ def main():
     if a.save:
         out = os.path.join(VERIF, "selftest", "refactors", a.save)
         os.makedirs(out, exist_ok=True)
-        shutil.copy(os.path.join(a.dir, "patch.diff"), out)
+        if os.path.abspath(a.dir) != os.path.abspath(out):
+            shutil.copy(os.path.join(a.dir, "patch.diff"), out)
         meta = {}
         try:
             meta = json.load(open(os.path.join(a.dir, "meta.json")))
